@@ -23,8 +23,15 @@ Three kinds of decision procedure, none of them tied to a statement shape:
 * symbolic paths (`Sym`) with exact normal forms for the locate arithmetic.
 
 R1  order preservation.  (a) `_check_merge_arguments` returns, on every return path, the caller's list element for
-    element, or the inclusive ascending expansion `range(first, last + 1)` of the numbered pattern.  (b) In `merge`
-    the `stores` entry of the metadata document, the list handed to the merged-index builder and the relocation loop
+    element, or the inclusive ascending expansion of the numbered pattern: an order-preserving image of a `range(...)`
+    whose elements are the pattern parameter formatted with `index=E(i)`, where - by exact linear normal forms, whatever
+    the spelling (`range(first, last + 1)` with `i`, `range(last - first + 1)` with `first + i`, a count-down with
+    `last - k`, bounds read by position, by unpacking, through a record and its methods) - E at the first element is
+    range[0], E advances by exactly 1 per element and E at the last element is range[1]; a definite difference in terms
+    of the two bounds (wrong start, exclusive end, descending, stride) is a violation that names it.  (b) In `merge`
+    the `stores` entry of the metadata document (looked for in merge, in the private helpers and in any helper that
+    builds the document, wherever it is kept - another module, a public function), the list handed to the
+    merged-index builder and the relocation loop
     are images of that returned list (relocation: of all its elements, in any order).  (c) `_open_merged_store`
     derives file paths, datasets, dimensions, variables, every group list and the cumulative size table from
     `metadata['stores']` through order-preserving images only; the size table is the running sum (accumulate / cumsum /
@@ -32,7 +39,9 @@ R1  order preservation.  (a) `_check_merge_arguments` returns, on every return p
 R2  refusals present (their position before any file-system effect is C10-R2), by bounded interpretation of `merge`:
     every sequence of up to three inputs whose field-set names are not all equal reaches a raise (subset, superset and
     same-size-different-names cases, in every position), and so does every sequence that mixes identified and
-    unidentified inputs; the uniform sequences are accepted.  A failing `assert` is not a refusal.
+    unidentified inputs; the uniform sequences are accepted.  A failing `assert` is not a refusal.  (Sets of names,
+    sets of frozensets / tuples of names, every set operator and comparison are evaluated; a violation says what the
+    accepted sequences have in common: one-sided comparison, sizes compared.)
 R3  locate arithmetic, per path of `_load_trajectory` to a record read under "size table exists": the file position
     is bisect_left(table, index + 1) / bisect_right(table, index) of the table of the *same* file set whose groups
     are read, the position is bounded before use, and the record index is the requested index relative to the located
@@ -45,7 +54,11 @@ R5  merged index (C08-R3).  (a) The stores the builder opens and walks are an or
     parameters, and the argument merge passes for it is an image of the checked input list; the store opened at step k
     is made from input k.  (b) By bounded interpretation of the builder on model parts: what it stores into the two
     index variables maps every flight identifier (ascending, and unchanged: no passage through a float or a narrower
-    integer) to the position of its trajectory in the concatenation of the parts in the order given.  (When (b) cannot be decided the shape rule `c08.rule_offsets` is used.)
+    integer) to the position of its trajectory in the concatenation of the parts in the order given.  The builder is
+    handed, per input, what merge hands it: the input itself, or the element of merge's argument evaluated on the model
+    input (a record / pair of the input's name and `len(<store opened on it>)`, ...), so a count taken from that
+    record is the model's count exactly when merge recorded the length of that input.  (When (b) cannot be decided
+    the shape rule `c08.rule_offsets` is used.)
 R6  the merged index is built for every uniformly identified sequence of 1..3 inputs and for no unidentified one (the
     reader of a merged store consults nothing else) - by the same interpretation of `merge` as R2.
 """
@@ -135,15 +148,56 @@ def canon(e: ast.expr) -> str:
     return _strip(T().visit(copy.deepcopy(e)))
 
 
+class _Sym(Sym):
+    """symbolic paths that also go through the helpers the rule asks for (`enter(callee)`), wherever they are kept: a
+    public function, a function of another module (what the construct a rule looks for is does not depend on the file
+    it was moved to)"""
+    enter = None
+
+    def _summarisable(self, c: ast.Call):
+        r = Sym._summarisable(self, c)
+        if r is not None or self.enter is None or self.depth >= 2:
+            return r
+        try:
+            callee = resolve_call(self.prog, self.fi, c)
+        except Exception:
+            return None
+        if callee is None or callee == self.fi or callee.name in self.opaque or not hasattr(callee, 'node'):
+            return None
+        if any(isinstance(x, (ast.Yield, ast.YieldFrom, ast.Await)) for x in walk_no_nested(callee.node)):
+            return None
+        if any(d.split('.')[-1].split('(')[0] not in ('staticmethod', 'classmethod') for d in callee.decorators()):
+            return None
+        if any(isinstance(a, ast.Starred) for a in c.args) or any(k.arg is None for k in c.keywords):
+            return None
+        return callee if self.enter(callee) else None
+
+
+def class_of(prog, m, func: ast.expr):
+    """the repository class that the expression `func` names inside module m (defined there, or imported from the module
+    it is kept in), else None"""
+    try:
+        cls = prog.resolve_class_expr(m, func)
+    except Exception:
+        cls = None
+    if cls is not None:
+        return cls
+    name = func.id if isinstance(func, ast.Name) else (func.attr if isinstance(func, ast.Attribute) else None)
+    return next((k for q, k in m.classes.items() if q.split('.')[-1] == name), None) if name is not None else None
+
+
 class Prov:
-    def __init__(self, ctx, prog, m, fn, root, opaque=()):
-        """root(expr) -> key of the source list that expr denotes, or None"""
+    def __init__(self, ctx, prog, m, fn, root, opaque=(), enter=None):
+        """root(expr) -> key of the source list that expr denotes, or None;  enter(callee) -> also look through this
+        helper (besides the private helpers of the module)"""
         self.ctx, self.prog, self.m, self.fn, self.root, self.opaque = ctx, prog, m, fn, root, set(opaque)
+        self.enter = enter
         self.origin: dict[str, object] = {}
         self.lists: set[str] = set()           # local names that hold an image of a source
 
     def sym(self, fn, target=None) -> Sym:
-        s = Sym(self.prog, fn)
+        s = _Sym(self.prog, fn)
+        s.enter = self.enter
         s.opaque = self.opaque
         s.run(target)
         self.origin.update(s.origin)
@@ -177,16 +231,21 @@ class Prov:
         return T().visit(copy.deepcopy(e))
 
     def is_named_tuple(self, c: ast.Call) -> bool:
-        name = call_name(c).split('.')[-1]
-        cls = next((k for q, k in self.m.classes.items() if q.split('.')[-1] == name), None)
+        cls = class_of(self.prog, self.m, c.func)
         return cls is not None and any(str(b).split('.')[-1] == 'NamedTuple' for b in getattr(cls, 'base_exprs', []))
 
     def _record_fields(self, c: ast.Call):
-        name = call_name(c).split('.')[-1]
-        cls = next((k for q, k in self.m.classes.items() if q.split('.')[-1] == name), None)
-        if cls is None or any(isinstance(a, ast.Starred) for a in c.args):
+        cls = class_of(self.prog, self.m, c.func)
+        if cls is None:
             return None
         fields = list(cls.annotated_fields().keys())
+        if len(c.args) == 1 and isinstance(c.args[0], ast.Starred) and not c.keywords and fields:
+            # `Rec(*pair)`: field k is element k of the unpacked sequence (which has exactly that many elements, or the
+            # call fails)
+            return {f: ast.Subscript(value=copy.deepcopy(c.args[0].value), slice=ast.Constant(value=i), ctx=ast.Load())
+                    for i, f in enumerate(fields)}
+        if any(isinstance(a, ast.Starred) for a in c.args):
+            return None
         if not fields or len(c.args) > len(fields):
             return None
         out = dict(zip(fields, c.args))
@@ -194,6 +253,27 @@ class Prov:
             if k.arg in fields:
                 out[k.arg] = k.value
         return {f: out[f] for f in fields if f in out} if len(out) == len(fields) else None
+
+    def _record_method(self, c: ast.Call):
+        """`Rec(a, b).method(x)` for a method of a record class (NamedTuple / dataclass of the module) whose body is one
+        `return E`: E over the record's fields and the arguments, else None"""
+        f = c.func
+        if not (isinstance(f, ast.Attribute) and isinstance(f.value, ast.Call)) or self._record_fields(f.value) is None:
+            return None
+        cls = class_of(self.prog, self.m, f.value.func)
+        meth = cls.find_method(f.attr) if cls is not None else None
+        if meth is None:
+            return None
+        body = [b for b in meth.node.body if not (isinstance(b, ast.Expr) and isinstance(b.value, ast.Constant))]
+        decs = meth.decorators()
+        if len(body) != 1 or not isinstance(body[0], ast.Return) or body[0].value is None or decs or not meth.params:
+            return None
+        bound = _bind_call(meth, c)
+        if bound is None:
+            return None
+        bound = dict(bound)
+        bound[meth.params[0]] = f.value
+        return self.simp(subst(body[0].value, bound))
 
     # -- sequences
     def seq(self, e: ast.expr, depth: int = 0):
@@ -245,6 +325,9 @@ class Prov:
                     Seq(s.src, ast.Call(func=e.args[0], args=[s.elem], keywords=[]))
             if cn in ('filter', 'itertools.islice', 'random.shuffle'):
                 return Broken(f'{cn}() drops or re-orders elements', True)
+            opened = self._record_method(e)
+            if opened is not None:
+                return self.seq(opened, depth + 1)
         if isinstance(e, ast.Subscript) and isinstance(e.slice, ast.Slice):
             sl = e.slice
             if sl.lower is None and sl.upper is None and sl.step is None:
@@ -441,6 +524,129 @@ def _pattern_expansion(v):
     return None
 
 
+def _range_param(fn):
+    cands = [p for p in fn.params if 'range' in p]
+    return cands[0] if cands else None
+
+
+def _pattern_param(fn):
+    cands = [p for p in fn.params if 'pattern' in p]
+    return cands[0] if cands else None
+
+
+def _canon_bounds(e: ast.expr, P: str) -> ast.expr:
+    """e with the spellings of the two bounds of the index-range parameter P (a pair of integers) made one:
+    `tuple(P)[k]`, `list(P)[k]`, `P[k - 2]`, `int(P[k])`, `min(P)` is not a bound (it is the smaller one)"""
+    class T(ast.NodeTransformer):
+        def visit_Call(self, n):
+            self.generic_visit(n)
+            cn = call_name(n)
+            if cn in ('tuple', 'list') and len(n.args) == 1 and not n.keywords and _is_name(n.args[0], P):
+                return n.args[0]
+            if cn in ('int', 'operator.index') and len(n.args) == 1 and not n.keywords \
+                    and not any(isinstance(x, ast.BinOp) and not isinstance(x.op, (ast.Add, ast.Sub, ast.Mult))
+                                for x in ast.walk(n.args[0])):
+                return n.args[0]             # the bounds are integers: int() of an integer expression is the expression
+            return n
+
+        def visit_Subscript(self, n):
+            self.generic_visit(n)
+            if _is_name(n.value, P):
+                k = n.slice
+                if isinstance(k, ast.UnaryOp) and isinstance(k.op, ast.USub) and isinstance(k.operand, ast.Constant):
+                    k = ast.Constant(value=-k.operand.value)
+                if isinstance(k, ast.Constant) and isinstance(k.value, int) and not isinstance(k.value, bool) and -2 <= k.value < 0:
+                    return ast.Subscript(value=n.value, slice=ast.Constant(value=k.value + 2), ctx=ast.Load())
+            return n
+    return T().visit(copy.deepcopy(e))
+
+
+def _beta(e: ast.expr) -> ast.expr:
+    """`(lambda x: B)(a)` -> B[x := a] (plain positional parameters only)"""
+    class T(ast.NodeTransformer):
+        def visit_Call(self, n):
+            self.generic_visit(n)
+            f = n.func
+            if isinstance(f, ast.Lambda) and not n.keywords and not any(isinstance(a, ast.Starred) for a in n.args):
+                a = f.args
+                if not (a.vararg or a.kwarg or a.kwonlyargs or a.defaults) and len(a.posonlyargs + a.args) == len(n.args):
+                    return self.visit(subst(f.body, {p.arg: x for p, x in zip(a.posonlyargs + a.args, n.args)}))
+            return n
+    return T().visit(copy.deepcopy(e))
+
+
+def expansion_verdict(fn, rng: ast.Call, elem: ast.expr):
+    """The list `[elem(i) for i in <rng>]` (elem over ELEM, rng a call of range) as the expansion of the numbered
+    pattern: every element is the pattern formatted with one index, and the indexes are first, first + 1, ..., last of
+    the index-range parameter, whatever the spelling of the arithmetic (`range(first, last + 1)` with the index itself,
+    `range(last - first + 1)` with `first + i`, a count-down with `last - i`, ...).  Decided by exact linear normal
+    forms of (index used for the first element) - first, (index of element k + 1) - (index of element k) and (index
+    used for the last element) - last.
+    -> (True, text) | (False, what is wrong) | (None, why it is not decided)"""
+    P, pat = _range_param(fn), _pattern_param(fn)
+    if P is None or pat is None:
+        return None, 'no index-range / pattern parameter'
+    if rng.keywords or not 1 <= len(rng.args) <= 3 or any(isinstance(a, ast.Starred) for a in rng.args):
+        return None, 'pattern expansion range not recognised'
+    elem = _beta(elem)
+    fmts = [x for x in ast.walk(elem) if isinstance(x, ast.Call) and isinstance(x.func, ast.Attribute) and x.func.attr == 'format']
+    if len(fmts) != 1 or any(isinstance(x, ast.Lambda) for x in ast.walk(elem)):
+        return None, 'the numbered pattern is not expanded by one call of .format(index=...)'
+    f = fmts[0]
+    if f.args or any(k.arg is None for k in f.keywords) or kwarg(f, 'index') is None:
+        return None, 'the numbered pattern is not expanded by one call of .format(index=...)'
+    if canon(f.func.value) != pat or canon(elem) != canon(f):
+        return None, f'the elements `{canon(elem)[:80]}` are more than the pattern parameter formatted with an index'
+    E = kwarg(f, 'index')
+    if not any(_is_name(x, ELEM) for x in ast.walk(E)):
+        return False, f'every element is formatted with the same index `{_strip(E)}`, whatever its position'
+    a = ast.Constant(value=0) if len(rng.args) == 1 else rng.args[0]
+    b = rng.args[0] if len(rng.args) == 1 else rng.args[1]
+    s = rng.args[2] if len(rng.args) == 3 else ast.Constant(value=1)
+    el = _elem()
+
+    def at(x):
+        return _canon_bounds(subst(E, {ELEM: x}), P)
+
+    def nf(x):
+        return _nf(_canon_bounds(x, P))
+    lo = ast.Subscript(value=ast.Name(id=P, ctx=ast.Load()), slice=ast.Constant(value=0), ctx=ast.Load())
+    hi = ast.Subscript(value=ast.Name(id=P, ctx=ast.Load()), slice=ast.Constant(value=1), ctx=ast.Load())
+    n_s = nf(s)
+    n_step = (nf(at(ast.BinOp(left=el, op=ast.Add(), right=s))), nf(at(el)))
+    n_first = (nf(at(a)), nf(lo))
+    n_last = (nf(at(ast.BinOp(left=b, op=ast.Sub(), right=s))), nf(hi))
+    if n_s is None or any(x is None for pr in (n_step, n_first, n_last) for x in pr):
+        return None, 'index arithmetic of the pattern expansion not recognised'
+    d_step, d_first, d_last = n_step[0] - n_step[1], n_first[0] - n_first[1], n_last[0] - n_last[1]
+    if not n_s.is_const() or not d_step.is_const():
+        return None, 'the indexes of the pattern expansion do not advance by a constant'
+    def show(x):
+        import re
+        text = str(x) if not isinstance(x, ast.AST) else _strip(x)
+        text = re.sub(r'(?<![\w.])1\*', '', text).replace('+ -', '- ').replace(ELEM, 'i')
+        return text
+    shown = f'`index={show(_canon_bounds(E, P))}` for i in `{show(_canon_bounds(rng, P))}`'
+    if d_step.const() != 1:
+        k = d_step.const()
+        how = 'in descending order' if k < 0 else ('the same index for every element' if k == 0 else f'in steps of {k}')
+        return False, f'the indexes used ({shown}) run {how}, not first, first + 1, ..., last'
+    if abs(n_s.const()) != 1:
+        return None, 'pattern expansion range not recognised'
+    bounds = {f'{P}[0]', f'{P}[1]'}
+    bad = []
+    for d, got, name, want in ((d_first, at(a), 'first', lo), (d_last, at(ast.BinOp(left=b, op=ast.Sub(), right=s)), 'last', hi)):
+        if d.is_zero():
+            continue
+        if not d.atoms() <= bounds:
+            return None, f'cannot compare the {name} index used (`{show(got)}`) with `{_strip(want)}`'
+        bad.append(f'the {name} index used is `{show(_nf(got))}`, not `{_strip(want)}`' + (f' (off by {d.const()})' if d.is_const() else ''))
+    if bad:
+        return False, f'the numbered pattern is formatted with {shown}: ' + ' and '.join(bad) + \
+            f'; the stores merged are not the stores {P}[0] .. {P}[1] (both included) that the caller named'
+    return True, f'{shown}: the indexes {P}[0], {P}[0] + 1, ..., {P}[1]'
+
+
 def rule_check_arguments(ctx, prog, m):
     """R1a: the list merge works on is the caller's list, or the inclusive ascending expansion of the numbered pattern:
     what `_check_merge_arguments` returns - or, when the checks live in `merge` itself, what merge binds to its list
@@ -448,7 +654,17 @@ def rule_check_arguments(ctx, prog, m):
     chk = _check_fn(m)
     fn = chk if chk is not None else m.func('TrajectoryStore.merge')
     lst = _list_param(fn) or (fn.params[1] if len(fn.params) > 1 else None)
-    prov = Prov(ctx, prog, m, fn, lambda e: 'the input list' if _is_name(e, lst) else None)
+    ranges: dict[str, ast.Call] = {}
+
+    def root(e):
+        if _is_name(e, lst):
+            return 'the input list'
+        if isinstance(e, ast.Call) and call_name(e) == 'range':
+            key = f'the indexes {_strip(e)}'
+            ranges.setdefault(key, e)
+            return key
+        return None
+    prov = Prov(ctx, prog, m, fn, root)
     try:
         if chk is not None:
             sym = prov.sym(chk)
@@ -462,38 +678,30 @@ def rule_check_arguments(ctx, prog, m):
     if chk is not None:
         ctx.floor('C09-R1', len(vals), 1, 'returns of _check_merge_arguments')
     seen = set()
+    n_exp = 0
     for v, stmt in vals:
         if (id(stmt), norm(v)) in seen:
             continue
         seen.add((id(stmt), norm(v)))
-        rng = _pattern_expansion(v)
-        if rng is not None:
-            ok = None
-            if len(rng.args) == 2 and isinstance(rng.args[0], ast.Subscript) and isinstance(rng.args[0].slice, ast.Constant):
-                P = rng.args[0].value
-                d0 = rng.args[0].slice.value
-                hi = ast.Subscript(value=P, slice=ast.Constant(value=1), ctx=ast.Load())
-                d = _diff(rng.args[1], hi)
-                if isinstance(P, ast.Name) and P.id in fn.params and d is not None:
-                    ok = d0 == 0 and d == 1
-            elif len(rng.args) == 3:
-                d = _nf(rng.args[2])
-                if d is not None and d.is_const() and d.const() < 0:
-                    ok = False
-            if ok is None:
-                ctx.undecided('C09-R1', fn, _strip(rng), 'pattern expansion range not recognised')
-            ctx.ob('C09-R1', fn, 'numbered pattern expands to the inclusive ascending range', ok,
-                   _strip(v)[:120] if ok else 'pattern expansion is not range(first, last + 1) in ascending order',
-                   line=stmt.lineno)
-            continue
         s = prov.seq(v)
         if isinstance(s, Broken) and not s.definite:
             ctx.undecided('C09-R1', fn, _strip(v)[:80], s.why)
+        if isinstance(s, Seq) and s.src in ranges:
+            n_exp += 1
+            ok, text = expansion_verdict(fn, ranges[s.src], s.elem)
+            if ok is None:
+                ctx.undecided('C09-R1', fn, _strip(ranges[s.src]), text)
+            ctx.ob('C09-R1', fn, 'numbered pattern expands to the inclusive ascending range', ok,
+                   text[:200] if ok else 'pattern expansion is not range(first, last + 1) in ascending order: ' + text,
+                   line=stmt.lineno)
+            continue
         ok = isinstance(s, Seq) and canon(s.elem) == ELEM
         what = 'return' if chk is not None else f'{lst} ='
         ctx.ob('C09-R1', fn, f'{what} {_strip(v)[:80]}', ok,
                'the input list' if ok else 'something other than the input list in the order given: '
                + (s.why if isinstance(s, Broken) else f'elements {canon(s.elem)}'), line=stmt.lineno, nontrivial=not ok)
+    if _pattern_param(fn) is not None:
+        ctx.floor('C09-R1', n_exp, 1, 'expansions of the numbered pattern')
     for x in walk_no_nested(fn.node):
         if isinstance(x, ast.Call) and isinstance(x.func, ast.Attribute) and x.func.attr in ('sort', 'reverse') \
                 and _is_name(x.func.value, lst):
@@ -512,7 +720,26 @@ def _merge_prov(ctx, prog, m):
         if _is_name(e, lst) or _pattern_expansion(e) is not None:
             return 'the checked input list'
         return None
-    return mg, Prov(ctx, prog, m, mg, root, opaque={chk.name} if chk is not None else ())
+    return mg, Prov(ctx, prog, m, mg, root, opaque={chk.name} if chk is not None else (),
+                    enter=lambda callee: _writes_stores_entry(prog, callee))
+
+
+def _writes_stores_entry(prog, callee, depth: int = 0) -> bool:
+    """the helper builds the metadata document: it holds a construct with a `stores` entry, or hands on to a helper that
+    does"""
+    if any(_stores_entry(x) is not None for x in walk_no_nested(callee.node)):
+        return True
+    if depth >= 2:
+        return False
+    for c in walk_no_nested(callee.node):
+        if isinstance(c, ast.Call):
+            try:
+                sub = resolve_call(prog, callee, c)
+            except Exception:
+                sub = None
+            if sub is not None and sub is not callee and hasattr(sub, 'node') and _writes_stores_entry(prog, sub, depth + 1):
+                return True
+    return False
 
 
 def _stores_entry(n):
@@ -555,14 +782,16 @@ def merge_metadata(ctx, prog, m, r_order, r_entry=None):
             continue
         seen_docs.add((id(h.node), norm(val)))
         s = prov.seq(val)
+        # (a document built by a helper kept in another file is reported where it is built)
+        where = mg if getattr(h.sym.fi, 'file', mg.file) == mg.file else h.sym.fi
         if isinstance(s, Broken) and s.definite:
-            ctx.ob(r_order, mg, 'metadata `stores` lists the inputs in the order given', False,
+            ctx.ob(r_order, where, 'metadata `stores` lists the inputs in the order given', False,
                    f'{s.why}: the `stores` entry of metadata.json is not the inputs in the order in which they were given. '
                    f'_open_merged_store lays the files out (and builds the cumulative size table) in metadata order, the merged '
                    f'flight-identifier index carries offsets in input order: positions and identifiers no longer belong together',
                    line=h.node.lineno)
             continue
-        if not _decide(ctx, r_order, mg, 'metadata `stores` lists the inputs in the order given', s, line=h.node.lineno):
+        if not _decide(ctx, r_order, where, 'metadata `stores` lists the inputs in the order given', s, line=h.node.lineno):
             continue
         el = s.elem
         if isinstance(el, ast.Call) and prov.is_named_tuple(el):
@@ -579,7 +808,7 @@ def merge_metadata(ctx, prog, m, r_order, r_entry=None):
             opened = _opened_path(ln.args[0]) if isinstance(ln, ast.Call) and call_name(ln) == 'len' and len(ln.args) == 1 else None
             len_ok = opened is not None and canon(opened) == ELEM
         if r_entry is not None:
-            ctx.ob(r_entry, mg, 'metadata entry per input = (file name, length of that input)', ok and name_ok and len_ok,
+            ctx.ob(r_entry, where, 'metadata entry per input = (file name, length of that input)', ok and name_ok and len_ok,
                    f'records {_strip(el)[:120]} per input in loop order' if ok and name_ok and len_ok else
                    f'metadata entry is not (name of the input, length of the input): `{_strip(el)[:120]}`', line=h.node.lineno)
     return recorded
@@ -1158,14 +1387,36 @@ def _seq(v: AV):
         return list(v.v)
     if v.k == 's':
         try:
-            return [AV('c', x, v.dep) for x in sorted(v.v, key=lambda x: (str(type(x)), x))]
+            return [_member(x, v.dep) for x in sorted(v.v, key=lambda x: (str(type(x)), sorted(x) if isinstance(x, frozenset) else x))]
         except TypeError:
-            return [AV('c', x, v.dep) for x in v.v]
+            return [_member(x, v.dep) for x in v.v]
     if v.k == 'd':
         return [AV('c', x, v.dep) for x in v.v]
     if v.k == 'r':
         return list(v.v.values())
     return None
+
+
+def _hashable(v: AV):
+    """the Python value under which a concrete value is a member of a set: constants as they are, a set of constants as a
+    frozenset, a tuple of those as a tuple; _NO for anything else"""
+    if v.k == 'c':
+        return v.v
+    if v.k == 's':
+        return frozenset(v.v)
+    if v.k == 't':
+        out = tuple(_hashable(x) for x in v.v)
+        return _NO if any(x is _NO for x in out) else out
+    return _NO
+
+
+def _member(x, dep) -> AV:
+    """inverse of `_hashable`"""
+    if isinstance(x, frozenset):
+        return AV('s', set(x), dep)
+    if isinstance(x, tuple):
+        return AV('t', tuple(_member(y, dep) for y in x), dep)
+    return AV('c', x, dep)
 
 
 def _eq(a: AV, b: AV):
@@ -1469,8 +1720,8 @@ class TruthTable:
 
     def ev_Set(self, e, st):
         vals = [self.ev(x, st) for x in e.elts if not isinstance(x, ast.Starred)]
-        if len(vals) == len(e.elts) and all(v.k == 'c' for v in vals):
-            return AV('s', {v.v for v in vals}, any(v.dep for v in vals))
+        if len(vals) == len(e.elts) and all(_hashable(v) is not _NO for v in vals):
+            return AV('s', {_hashable(v) for v in vals}, any(_deep(v) for v in vals))
         return self.unknown(vals)
 
     def ev_Dict(self, e, st):
@@ -1751,8 +2002,8 @@ class TruthTable:
         items, und = self._comp(e, st, lambda s: self.ev(e.elt, s))
         if items is None:
             return self.unknown(und, _mentions_id(e))
-        if all(v.k == 'c' for v in items):
-            return AV('s', {v.v for v in items}, any(v.dep for v in items))
+        if all(_hashable(v) is not _NO for v in items):
+            return AV('s', {_hashable(v) for v in items}, any(_deep(v) for v in items))
         return self.unknown(items, _mentions_id(e))
 
     def ev_DictComp(self, e, st):
@@ -1841,7 +2092,7 @@ class TruthTable:
         mod = getattr(self.fi, 'module', None)
         if name is None or mod is None:
             return None
-        cls = next((k for q, k in mod.classes.items() if q.split('.')[-1] == name), None)
+        cls = class_of(self.prog, mod, func)
         if cls is None:
             return None
         is_record = any(str(b).split('.')[-1] == 'NamedTuple' for b in cls.base_exprs) \
@@ -2299,8 +2550,8 @@ class TruthTable:
                 if not A:
                     return AV('s', set())
                 s = _seq(A[0])
-                if s is not None and all(x.k == 'c' for x in s):
-                    return AV('s', {x.v for x in s}, dep)
+                if s is not None and all(_hashable(x) is not _NO for x in s):
+                    return AV('s', {_hashable(x) for x in s}, dep)
                 return self.made_from(A, 'set') if A[0].k == 'o' else AV('u', None, dep)
             if name == 'dict':
                 if not A:
@@ -2872,7 +3123,7 @@ def refusal_tables(prog, m, max_n: int = 3) -> dict:
         first = next((x for x in walk_no_nested(mg.node) if isinstance(x, ast.Attribute) and x.attr in attrs), None)
         return first.lineno if first is not None else line0
 
-    def table(cases, show, is_uniform, what):
+    def table(cases, show, is_uniform, what, describe=None):
         """-> (verdict, text, line, accepted uniform results)"""
         n_paths, consulted, where, accepted, asserts, uniform = 0, False, None, [], 0, []
         for case in cases:
@@ -2909,7 +3160,8 @@ def refusal_tables(prog, m, max_n: int = 3) -> dict:
         some = ', '.join(show(c) for c in accepted[:3])
         return (False, f'merge no longer refuses every list with {what}: the inputs {some} reach the end of merge without a raise '
                        f'({len(accepted)} of the {n_bad} such sequences up to length {max_n} are accepted'
-                       + (', a failing `assert` not counting as a refusal' if asserts else '') + ')', line0), uniform
+                       + (', a failing `assert` not counting as a refusal' if asserts else '') + ')'
+                       + (describe(accepted) if describe is not None else ''), line0), uniform
 
     def done(**kw):
         _TABLES[key] = (prog, kw)
@@ -2948,7 +3200,20 @@ def refusal_tables(prog, m, max_n: int = 3) -> dict:
     def show_fs(case):
         return '[' + ', '.join('{' + ', '.join(sorted(f)) + '}' for f in case[1]) + ']'
     fs_cases = [((True,) * n, seq) for n in range(1, max_n + 1) for seq in itertools.product((A, B, C), repeat=n)]
-    fieldsets, _ = table(fs_cases, show_fs, lambda c: len(set(c[1])) == 1, 'differing field sets')
+
+    def describe_fs(accepted):
+        """what the accepted sequences have in common (which half of the comparison is missing)"""
+        seqs = [c[1] for c in accepted]
+        if all(all(f <= q[0] for f in q) for q in seqs):
+            return ('; in every accepted sequence the later inputs only lack field sets of the first input: the comparison is '
+                    'one-sided - an input with an additional field set is refused, one with a missing field set is not')
+        if all(all(f >= q[0] for f in q) for q in seqs):
+            return ('; in every accepted sequence the later inputs only have field sets the first input lacks: the comparison is '
+                    'one-sided - an input with a missing field set is refused, one with an additional field set is not')
+        if all(len({len(f) for f in q}) == 1 for q in seqs):
+            return '; in every accepted sequence the inputs have equally many field sets: their number is compared, not their names'
+        return ''
+    fieldsets, _ = table(fs_cases, show_fs, lambda c: len(set(c[1])) == 1, 'differing field sets', describe_fs)
     if fieldsets[0] is False:
         fieldsets = (False, fieldsets[1], line_of(('_nc',)))
     return done(mixed=mixed, built=built, fieldsets=fieldsets)
@@ -3010,6 +3275,9 @@ def _merged_index_table(ctx, prog, m, max_parts, max_size):
     if len(srcs) != 1:
         return None, 'the list of inputs of the index builder is not one of its parameters', line0
     n_runs = 0
+    # what the builder is handed per input: the input itself, or what merge makes of it (a record of its name and its
+    # length, ...) - the element of the argument of merge's call, evaluated by the interpreter on the model inputs
+    handed = _builder_elem(ctx, prog, m, srcs[0])
     # first with small identifiers (order and offsets; readable counterexamples), then with identifiers that only the
     # 64-bit integer type holds exactly (the values must reach the index unchanged: no float, no narrower integer)
     for wide in (False, True):
@@ -3021,7 +3289,10 @@ def _merged_index_table(ctx, prog, m, max_parts, max_size):
                 tt = TruthTable(prog, builder, (True,) * n, '<none>', None)
                 tt.sizes, tt.index_tables = list(sizes), tables
                 try:
-                    res = tt.run(srcs[0], keep_flags=True)
+                    given = None
+                    if handed is not None:
+                        given = {srcs[0]: AV('l', [tt.ev(handed, _St({ELEM: AV('o', f'input {k}', False, k)})) for k in range(n)])}
+                    res = tt.run(srcs[0], keep_flags=True, bindings=given)
                 except TTUndecided as ex:
                     return None, f'parts of sizes {sizes}: {ex}', line0
                 except (_Raised, RecursionError):
@@ -3039,6 +3310,30 @@ def _merged_index_table(ctx, prog, m, max_parts, max_size):
     return True, (f'for every tuple of up to {max_parts} parts with 1..{max_size} trajectories each ({n_runs} runs, with small '
                   f'identifiers and with identifiers above 2**53) the stored index maps every identifier, unchanged, to the position '
                   f'of its trajectory in the concatenation of the parts'), line0
+
+
+def _builder_elem(ctx, prog, m, pname: str):
+    """what merge hands the index builder for one input, as an expression over ELEM (the checked input): the element of the
+    order-preserving image that is the argument for the builder's list parameter `pname` (`parts` with
+    `parts.append(Part(name=p.name, ntrajs=len(TrajectoryStore.open(p))))` -> that record).  None when it is the input
+    itself, or when the call sites do not agree / the argument is not an image (rule_index_walk reports on that)"""
+    mg, mprov, builder, calls = _builder_calls(ctx, prog, m, 'C09-R5')
+    elems = {}
+    for h in calls:
+        bound = _bind_call(builder, h.node)
+        if bound is None or pname not in bound:
+            return None
+        arg = h.ev(bound[pname])
+        while isinstance(arg, ast.Call) and call_name(arg) in ('sorted', 'reversed', 'list', 'tuple') and arg.args:
+            arg = arg.args[0]            # what an element is does not depend on the order (the order: rule_index_walk)
+        ms = mprov.seq(arg)
+        if not isinstance(ms, Seq):
+            return None
+        elems[canon(ms.elem)] = ms.elem
+    if len(elems) != 1:
+        return None
+    e = next(iter(elems.values()))
+    return None if canon(e) == ELEM else e
 
 
 def rule_merged_index(ctx, prog, m, rule):
